@@ -6,6 +6,7 @@ Domain : for every language, every expression the language module passes to find
          stateful predicate: nesting-depth class in {0,1,2,>=3} and every other attribute such as 'satisfied') by feeding REAL Token objects to Pattern.consume; every
          configuration keeps its shortest witness. Token classes = token kind x every value some predicate of that
          language distinguishes (+ one other value per kind).
+         Every witness token sequence is also rendered to source text and passed through the real lexer and scan_file.
 Oracle : in every reachable configuration and for every token class, (a) Pattern.consume does not raise the ambiguity
          error, and (b) counted on deep copies of the predicates, at most one of the transitions the engine considers
          (all of them, or only the ones in the middle of a group when there are such) accepts the token.
@@ -266,12 +267,15 @@ def explore_language(col, lname):
         return
     classes = token_classes([e for _, e in exprs])
     col.notes[f"token_classes:{lname}"] = len(classes)
+    texts = set()
     for k, (role, expr) in enumerate(exprs):
         n = nt = 0
         for ev in explore(lname, k, role, expr, classes):
             if ev[0] == "eval":
                 n += 1
                 nt += ev[1]
+                if role == "header":
+                    texts.add(ev[2]["text"])
                 if ev[1] and n % 97 == 0:
                     col.sample({k2: ev[2][k2] for k2 in ("language", "role", "text")}, force=len(col.samples) < 2)
             elif ev[0] == "fail":
@@ -280,10 +284,30 @@ def explore_language(col, lname):
                 col.notes["configurations"] = col.notes.get("configurations", 0) + ev[1]
                 col.label(f"{lname}:{role}")
         col.bulk(n, nt)
+    # every witness, rendered to source text, goes through the real lexer and scan_file: no text may raise the ambiguity error
+    from vf.props.c01 import tool_scan_file
+
+    n = 0
+    for text in sorted(texts):
+        for suffix in ("", " {\n}\n", ") => {\n}\n"):
+            src = text + suffix
+            r = call_sut(tool_scan_file, lname, src)
+            n += 1
+            if r[0] == "exc" and "Multiple transitions" in r[2]:
+                col.fail({"language": lname, "source": src}, "source:ambiguity-error", f"{lname}: scan_file raised the ambiguity error on {src!r}\n{r[2][-600:]}")
+    col.bulk(n, 0)
+    col.label(f"{lname}:witness-sources")
 
 
 def run_case(case):
     """Replay one (witness, token) pair against the current expression #index of the language."""
+    if "source" in case:
+        from vf.props.c01 import tool_scan_file
+
+        r = call_sut(tool_scan_file, case["language"], case["source"])
+        if r[0] == "exc" and "Multiple transitions" in r[2]:
+            return ("source:ambiguity-error", r[2][-600:])
+        return None
     import pygments.token as T
 
     def cls(pair):
